@@ -157,7 +157,7 @@ REJECTION_KINDS = [('Found no way to assign variables', 'no-way-to-assign'),
                    ('circular dependency of', 'in-circular-dependency')]
 
 
-def classify_order_sensitive_rejection(prog, res, prop, tries=8, switches=None):
+def classify_order_sensitive_rejection(prog, res, prop, tries=16, switches=None):
   """A generated-valid program was rejected with a diagnostic.  If the message is one of the two
   variable-elimination messages AND some other order of the conjuncts of the same program compiles and
   returns exactly the reference rows, the rejection is the recorded order-sensitivity of
@@ -179,7 +179,9 @@ def classify_order_sensitive_rejection(prog, res, prop, tries=8, switches=None):
       r2 = check_predicate(variant, text, rules, res.pred, ev)
     except evaluator.Unsupported:
       continue
-    if r2.status == 'ok':
+    if r2.status in ('ok', 'mismatch', 'discarded'):
+      # the recorded mechanism is 'rejected for some conjunct orders, compiled for others': it is established by an
+      # order that compiles (whether that order's rows are right is judged when that order is the program under test)
       return '%s/elimination-order/%s' % (prop, kind)
   # second recorded mechanism: the rejection disappears when the single-rule predicates the rule calls are
   # kept from being injected (the injected definition steers the elimination into the cycle)
